@@ -11,7 +11,7 @@
    observed by the harness only (each case runs in a child process under ulimit -v and a timeout). *)
 From Iso Require Import Model.Base Model.Padding Model.Encoding Model.Prefix Model.Bitmap Model.Spec Model.Field
      Proofs.BaseLemmas Proofs.EncodingProofs Proofs.PrefixProofs Proofs.FieldProofs Proofs.BitmapProofs Proofs.CompositeProofs Proofs.NoPanicProofs.
-From Iso Require Import Model.Message.
+From Iso Require Import Model.Message Proofs.MessageRoundtrip Proofs.CoherenceCheck Gen.ShippedSpecs.
 
 Theorem C04_enc_decode_total : forall e d n, match enc_decode e d n with Ok _ | Err _ => True | _ => False end.
 Proof. exact enc_decode_total. Qed.
@@ -48,6 +48,17 @@ Print Assumptions C04_new_objects_ok.
 Theorem C04_message_no_panic : forall S m d, wfm S -> okmsg S (m_fields m) -> good (snd (m_unpack S m d)).
 Proof. exact m_unpack_good. Qed.
 Print Assumptions C04_message_no_panic.
+
+(* the five shipped specifications (regenerated on every run) satisfy wfm: no byte string makes Unpack of any of them
+   panic or loop; new message objects satisfy okmsg (C04_new_objects_ok per field) *)
+Theorem C04_shipped_specs : forall name t, In (name, t) shipped_specs -> exists MS, spec_of_string t = Some MS /\ wfm MS.
+Proof.
+  assert (H : forallb (fun nt : String.string * String.string => match spec_of_string (snd nt) with Some MS => wfmb MS | None => false end) shipped_specs = true)
+    by (vm_compute; reflexivity).
+  intros name t Hi. rewrite forallb_forall in H. specialize (H (name, t) Hi). cbn [snd] in H.
+  destruct (spec_of_string t) as [MS|]; [|discriminate]. exists MS. split; [reflexivity|apply wfmb_sound; exact H].
+Qed.
+Print Assumptions C04_shipped_specs.
 
 Example C04_ex : is_err (dec_len PBerTLV 0 [x88; xff; xff; xff; xff; xff; xff; xff; xff]) = true /\
                  is_err (enc_decode EncLBCD [x12] 1099511627776) = true.
